@@ -41,16 +41,15 @@ def model_check(chk):
 
     def one(cfg, inv):
         try:
-            vlib.mc("Content", "MC_Content_%s.cfg" % cfg, expect_violation=inv, workers=2, timeout=600, heap="1g",
+            vlib.mc("Content", "MC_Content_%s.cfg" % cfg, expect_violation=inv, workers=1, timeout=600, heap="1g",
                     wd=vlib.workdir("tlc-Content-%s-%d" % (cfg, os.getpid())))
         except Exception as ex:          # noqa: collected, re-raised below in the main thread
             errs.append(ex)
     ths = [threading.Thread(target=one, args=j) for j in jobs]
-    for batch in (ths[:5], ths[5:]):
-        for t in batch:
-            t.start()
-        for t in batch:
-            t.join()
+    for t in ths:
+        t.start()
+    for t in ths:
+        t.join()
     if errs:
         raise errs[0]
     if thorough:
@@ -108,7 +107,7 @@ class Beh:
 def hist_to_behaviour(h, j):
     """one TLC action history (model node N = driver node 0; publications of the environment = helper publishers 3 / 4)"""
     cfg_unused, cfg_allused = [((2, 3), (1, 1)), ((3, 5), (5, 5)), ((2, 3), (5, 5)), ((3, 5), (1, 1))][j % 4]
-    sizes = {1: 0, 2: [1, 63][j % 2], 3: [65, 64, 65, 512][(j // 2) % 4]}
+    sizes = {1: 0, 2: [1, 63][j % 2], 3: [33, 65, 2, 64, 55, 56, 65, 512 if j % 16 == 7 else 9][(j // 2) % 8]}
     b = Beh(100 + j)
     first_t = next((a["d"]["t"] for a in h if a["op"] == "store"), 1)
     own = cfg_unused if first_t == 1 else cfg_allused
@@ -175,10 +174,10 @@ def matrix_roundtrip(tier):
 def matrix_tamper(tier):
     out = []
     j = 0
-    combos = [(cfg, size) for cfg in CONFIGS for size in (0, 1, 65)]
-    combos += [(CONFIGS[i % 4], 512) for i in range(4 if tier == "thorough" else 2)]
     if tier == "thorough":
-        combos += [(cfg, size) for cfg in CONFIGS for size in (63, 64)]
+        combos = [(cfg, size) for cfg in CONFIGS for size in (0, 1, 63, 64, 65, 512)]
+    else:
+        combos = [(cfg, size) for cfg in CONFIGS for size in (0, 65)] + [((2, 3), 1), ((5, 5), 1), ((3, 5), 512)]
     for (t, n), size in combos:
         j += 1
         b = Beh(300 + j)
@@ -189,8 +188,9 @@ def matrix_tamper(tier):
         c = (j + 1) % 8
         s = b.store(0, c, size, j + 1)
         y = b.store(3, c, size + 5, j + 50)          # another publication of the same chunk id (other payload, key, nonce)
-        half = len(KINDS) // 2
-        for i, k in enumerate(KINDS):
+        kinds = KINDS if (size < 512 or tier == "thorough") else KINDS[::2]
+        half = len(kinds) // 2
+        for i, k in enumerate(kinds):
             if i == half:
                 b.tamper(s, "none", recv=1, cli=True, chunkin=2)      # from here on the importing nodes hold the chunk
                 b.fetch(1, c)
@@ -220,28 +220,30 @@ def matrix_foreign(tier):
     """a different manifest for a chunk id the node holds arrives through every manifest entry point; then a lookup"""
     out = []
     j = 0
-    sizes = [0, 1, 65, 512] if tier == "thorough" else [0, 1, 65]
     for (t, n) in CONFIGS:
-        for size in sizes + ([512] if tier != "thorough" and (t, n) == (3, 5) else []):
-            for via in ("ingest", "announce", "request"):
-                for same_payload in (False, True):
-                    j += 1
-                    b = Beh(400 + j)
-                    b.node(0, t, n)
-                    b.node(3, CONFIGS[j % 4][0], CONFIGS[j % 4][1])
-                    c = j % 8
-                    s = b.store(0, c, size, j)
-                    f = b.store(3, c, size if same_payload else size + 3, j if same_payload else j + 1000)
-                    b.fetch(0, c)
-                    b.manifest(0, f, via)
-                    b.fetch(0, c)
-                    if j % 3 == 0:
-                        b.add("shardexpire node=0 c=%d" % c)
-                        b.fetch(0, c)
-                    if j % 2 == 0:
-                        b.manifest(0, s, "ingest")        # the node's own manifest again
-                        b.fetch(0, c)
-                    out.append(b.lines)
+        if tier == "thorough":
+            plan = [(size, via, same) for size in (0, 1, 65, 512) for via in ("ingest", "announce", "request") for same in (False, True)]
+        else:
+            plan = [(65, via, same) for via in ("ingest", "announce", "request") for same in (False, True)]
+            plan += [(0, "ingest", False), (0, "announce", True), (1, "request", False)] + ([(512, "ingest", False)] if (t, n) == (3, 5) else [])
+        for size, via, same_payload in plan:
+            j += 1
+            b = Beh(400 + j)
+            b.node(0, t, n)
+            b.node(3, CONFIGS[j % 4][0], CONFIGS[j % 4][1])
+            c = j % 8
+            s = b.store(0, c, size, j)
+            f = b.store(3, c, size if same_payload else size + 3, j if same_payload else j + 1000)
+            b.fetch(0, c)
+            b.manifest(0, f, via)
+            b.fetch(0, c)
+            if j % 3 == 0:
+                b.add("shardexpire node=0 c=%d" % c)
+                b.fetch(0, c)
+            if j % 2 == 0:
+                b.manifest(0, s, "ingest")        # the node's own manifest again
+                b.fetch(0, c)
+            out.append(b.lines)
     return out
 
 
@@ -252,7 +254,7 @@ def rsize(rng, big):
         return rng.choice([0, 1, 2, 31, 32, 33, 63, 64, 65, 127, 128, 129, 191, 192, 193, 255, 256, 257, 511, 512])
     if big and x < 0.50:
         return rng.choice([513, 4096, 65535, 65536, 65537, 300000])
-    return rng.randrange(0, 513)
+    return rng.randrange(0, 513) if (big or x > 0.9) else rng.randrange(0, 130)
 
 
 def rkind(rng, size, nshards):
@@ -458,8 +460,8 @@ def describe(e):
     return e["op"]
 
 
-NEED = {"quick": {"stores": 300, "large_stores": 8, "fetches": 500, "meddled_fetches": 100, "not_genuine": 300, "genuine_tampered": 30,
-                  "recv_refused_not_genuine": 250, "recv_accepted": 60, "cli": 300, "chunkin": 250, "chunkin_stored": 15, "manifests": 150, "meddlings": 100}}
+NEED = {"quick": {"stores": 200, "large_stores": 8, "fetches": 250, "meddled_fetches": 70, "not_genuine": 150, "genuine_tampered": 40,
+                  "recv_refused_not_genuine": 150, "recv_accepted": 60, "cli": 200, "chunkin": 200, "chunkin_stored": 15, "manifests": 80, "meddlings": 60}}
 NEED["thorough"] = {k: v * 2 for k, v in NEED["quick"].items()}
 
 
@@ -468,11 +470,11 @@ def run(chk):
     rng = chk.rng
     hists = [h for h in model_check(chk) if h]
     log("[gen] %d TLC state-cover sequences" % len(hists))
-    pick = hists if thorough and len(hists) <= 3000 else rng.sample(hists, min(len(hists), 3000 if thorough else 160))
+    pick = hists if thorough and len(hists) <= 3000 else rng.sample(hists, min(len(hists), 3000 if thorough else 50))
     # always keep the longest ones (deep interleavings) in the sample
     deep = sorted(hists, key=len, reverse=True)[:20]
     cover = [hist_to_behaviour(h, j) for j, h in enumerate(deep + pick)]
-    behaviours = matrix_roundtrip(chk.tier) + matrix_tamper(chk.tier) + matrix_foreign(chk.tier) + cover + random_behaviours(rng, 600 if thorough else 50, thorough)
+    behaviours = matrix_roundtrip(chk.tier) + matrix_tamper(chk.tier) + matrix_foreign(chk.tier) + cover + random_behaviours(rng, 600 if thorough else 30, thorough)
     lines, events, res = execute(chk, behaviours, "all", timeout=3000 if thorough else 1200)
     st = res["stats"]
     nb = sum(1 for e in events if e["op"] == "reset")
